@@ -228,6 +228,7 @@ func checkC08(c *Ctx) {
 	}
 	sort.Slice(sfns, func(i, j int) bool { return sfns[i].String() < sfns[j].String() })
 	serverSendsGiveUp(c, sfns, "R-server-send-gives-up")
+	watcherGoroutinesEnd(c, cfns, "R-watcher-ends")
 
 	c08Bodies(c, cfns)
 	c08Release(c)
